@@ -38,6 +38,10 @@ CHECKS = {
    "explicit-state search to the fixpoint over write histories on the real in-memory store (state = full store content, exact deduplication), register reference model compared on every read in every state",
    "All histories of plain and signed writes over the variable/value alphabet are explored on the real testfs store until no new store content is reachable (or the depth bound); in every state every variable is read back through the raw and typed accessors and compared with a last-write register model. Exhaustive: the search reaches its fixpoint.",
    "Finite value alphabet (4 sizes per variable incl. empty) and 3 (quick) / 5 (thorough) variables; signatures memoised (deterministic PKCS#1 v1.5) under a frozen clock.", "DESIGN.md section 4 C12"),
+ "C01": ("exploration", "E-shape",
+   "bounded exhaustive enumeration of PE layouts (format x e_lfanew x <=3 sections in every file order x raw size x gaps x header slack x trailing length 0..9 x certificate table) and, per layout, of every byte position (flip), differential against a from-the-specification digest; exhaustive (offset,length) check of the positional reader",
+   "Every layout of the product and every single-byte mutant of it is parsed and hashed by the real library and compared with an independent implementation of the Microsoft algorithm on raw bytes; this decides both digest equality and exactly which bytes are covered/excluded. Exhaustive within the stated layout bound.",
+   "Small-scope hypothesis beyond 3 sections / 9 trailing bytes / the size alphabet; refpe trusted (it reproduces the digests pinned in the repository's tests, checked in the fixtures unit); mutants the reference calls ill-formed are out of the property's domain and skipped.", "DESIGN.md section 4 C01"),
 }
 
 NOT_YET = "check not built yet in this round (planned, see DESIGN.md section 4); no claim is made"
